@@ -2642,6 +2642,12 @@ func (s *Server) serveConnCounted(c net.Conn, countConcurrency bool) error {
 			verifPoint("srv.afterHandler")
 		}
 
+		if rs, ok := ctx.Request.bodyStream.(*requestStream); ok && ctx.timeoutResponse == nil && ctx.hijackHandler == nil && !rs.drained() {
+			// The handler left a part of the streamed request body unread, so the
+			// rest of it is still on the connection in front of the next request.
+			connectionClose = true
+		}
+
 		timeoutResponse = ctx.timeoutResponse
 		if timeoutResponse != nil {
 			// Acquire a new ctx because the old one will still be in use by the timeout out handler.
